@@ -324,7 +324,10 @@ unsafe fn write_all_sub_paths(
     raw: *const u8,
 ) -> core::result::Result<(), rusl::Error> {
     let len = buf.len();
+    // Walk up from the end until we find the deepest ancestor that exists or can be created
     let mut it = 1;
+    // Where to continue creating sub paths from, going back down
+    let mut continue_from = 0;
     loop {
         // Iterate down
         let ind = len - it;
@@ -336,58 +339,62 @@ unsafe fn write_all_sub_paths(
         if byte == b'/' {
             // Swap slash for null termination to make a valid path
             buf[ind] = NULL_BYTE;
-
-            return match rusl::unistd::mkdir(
+            let res = rusl::unistd::mkdir(
                 UnixStr::from_bytes_unchecked(&buf[..=ind]),
                 Mode::from(0o755),
-            ) {
-                // Successfully wrote, traverse down
+            );
+            // Put slash back to make a valid path concatenation
+            buf[ind] = b'/';
+            match res {
+                // Successfully wrote, or it was already there, traverse down from here
                 Ok(()) => {
-                    // Replace the null byte to make a valid path concatenation
-                    buf[ind] = b'/';
-                    for i in ind + 1..len {
-                        // Found next
-                        if buf[i] == b'/' {
-                            // Swap slash for null termination to make a valid path
-                            buf[i] = NULL_BYTE;
-                            rusl::unistd::mkdir(
-                                UnixStr::from_bytes_unchecked(&buf[..=i]),
-                                Mode::from(0o755),
-                            )?;
-                            // Swap back to continue down
-                            buf[i] = b'/';
-                        }
-                    }
-                    // if we end on a slash we don't have to write the last part
-                    if unsafe { raw.add(len - 1).read() } == b'/' {
-                        return Ok(());
-                    }
-                    // We know the actual length is len + 1 and null terminated, try write full
-                    rusl::unistd::mkdir(
-                        UnixStr::from_bytes_unchecked(core::slice::from_raw_parts(raw, len + 1)),
-                        Mode::from(0o755),
-                    )?;
-                    Ok(())
+                    continue_from = ind + 1;
+                    break;
                 }
-                Err(e) => {
-                    if let Some(code) = e.code {
-                        if code == Errno::ENOENT {
-                            it += 1;
-                            // Put slash back, only way we end up here is if we tried to write
-                            // previously replacing the slash with a null-byte
-                            buf[ind] = b'/';
-                            continue;
-                        } else if code == Errno::EEXIST {
-                            return Ok(());
-                        }
+                Err(e) => match e.code {
+                    // Parent is missing, keep going up
+                    Some(Errno::ENOENT) => {}
+                    Some(Errno::EEXIST) => {
+                        continue_from = ind + 1;
+                        break;
                     }
-                    Err(e)
-                }
-            };
+                    _ => return Err(e),
+                },
+            }
         }
         it += 1;
     }
-    Ok(())
+    for i in continue_from..len {
+        // Found next, a leading slash is the root and never needs creating
+        if i != 0 && buf[i] == b'/' {
+            // Swap slash for null termination to make a valid path
+            buf[i] = NULL_BYTE;
+            let res = rusl::unistd::mkdir(
+                UnixStr::from_bytes_unchecked(&buf[..=i]),
+                Mode::from(0o755),
+            );
+            // Swap back to continue down
+            buf[i] = b'/';
+            match res {
+                Ok(()) => {}
+                Err(e) if e.code == Some(Errno::EEXIST) => {}
+                Err(e) => return Err(e),
+            }
+        }
+    }
+    // if we end on a slash we don't have to write the last part
+    if unsafe { raw.add(len - 1).read() } == b'/' {
+        return Ok(());
+    }
+    // We know the actual length is len + 1 and null terminated, try write full
+    match rusl::unistd::mkdir(
+        UnixStr::from_bytes_unchecked(core::slice::from_raw_parts(raw, len + 1)),
+        Mode::from(0o755),
+    ) {
+        Ok(()) => Ok(()),
+        Err(e) if e.code == Some(Errno::EEXIST) => Ok(()),
+        Err(e) => Err(e),
+    }
 }
 
 pub struct Directory(OwnedFd);
